@@ -1,4 +1,5 @@
 // Correspondence harness for C05: drives the real ChainService.GetCFilter
+// (and GetBlock, as a possible second producer of cached filters)
 // (query.go: prepareCFiltersQuery, cfiltersQuery.handleResponse), the real
 // filter database, batch writer and LRU filter cache through a skeleton with
 // real header stores and a scripted work manager. Filters are real GCS
@@ -13,6 +14,7 @@ import (
 	"math/rand"
 	"os"
 	"path/filepath"
+	"runtime/debug"
 	"sort"
 	"strings"
 	"sync"
@@ -51,7 +53,7 @@ type Resp struct {
 
 // Op is one operation of a history.
 type Op struct {
-	Kind     string  `json:"kind"`             // call|dropcache|purge|rewrite
+	Kind     string  `json:"kind"`             // call|dropcache|purge|rewrite|getblock
 	Hold     bool    `json:"hold,omitempty"`   // call A: its query is held open while the next call is started
 	Queued   bool    `json:"queued,omitempty"` // call B: started while the held call is in flight
 	From     int     `json:"from,omitempty"`   // rewrite: filter headers From..tip are rolled back and re-written
@@ -63,7 +65,13 @@ type Op struct {
 	MaxBatch int64   `json:"max_batch"`
 	Resps    []Resp  `json:"resps,omitempty"`
 	Verdict  string  `json:"verdict,omitempty"`
+	// call: write commits placed right after the read transaction of the
+	// call's filter database lookup has ended (one PutFilters commit per
+	// group; heights of committed blocks, the committed filter is written)
+	Writes [][]int `json:"writes,omitempty"`
 	// observations
+	WTok  [][2]int64 `json:"wtok,omitempty"`  // the puts of Writes in order: (block id, filter token)
+	WDone bool       `json:"wdone,omitempty"` // the read transaction happened and the commits were made
 	Res     string     `json:"res,omitempty"` // filter|fetch|query|quit|other
 	ResTok  int64      `json:"res_tok,omitempty"`
 	Queried bool       `json:"queried,omitempty"`
@@ -99,6 +107,7 @@ type History struct {
 }
 
 var errInjected = errors.New("scripted dispatcher failure")
+var errPanicked = errors.New("GetCFilter panicked")
 
 func mkSpecs(r *rand.Rand, n int) []q.BlockSpec {
 	sp := make([]q.BlockSpec, n)
@@ -113,12 +122,36 @@ func mkSpecs(r *rand.Rand, n int) []q.BlockSpec {
 
 func chainCfgs(seed int64) []ChainCfg {
 	r := c.Rng(seed, 900001)
-	return []ChainCfg{
+	cfgs := []ChainCfg{
 		{Seed: seed*10 + 1, Specs: mkSpecs(r, 24), FTip: 24, Poisoned: []int{7}},
 		{Seed: seed*10 + 2, Specs: mkSpecs(r, 24), FTip: 20, Poisoned: []int{20}},
 		{Seed: seed*10 + 3, Specs: mkSpecs(r, 3), FTip: 3},
 		{Seed: seed*10 + 4, Specs: mkSpecs(r, 12), FTip: 12, Poisoned: []int{1, 12}},
 	}
+	// the longer chain of the overlapped-lookup family
+	r5 := c.Rng(seed, 900005)
+	big := mkSpecs(r5, 44)
+	for i := range big {
+		// larger blocks: filters of a few hundred bytes, so that the filter
+		// bucket spans several database pages
+		if !big[i].NoScripts {
+			big[i].NTx = 12 + r5.Intn(40)
+		}
+	}
+	cfgs = append(cfgs, ChainCfg{Seed: seed*10 + 5, Specs: big, FTip: 44})
+	// real spends (separate stream: the specs above stay what they were): the
+	// first transaction of about every second block with transactions spends
+	// the previous block's coinbase output, whose script is in the filter
+	r2 := c.Rng(seed, 900002)
+	for ci := range cfgs {
+		for i := range cfgs[ci].Specs {
+			sp := &cfgs[ci].Specs[i]
+			if sp.NTx > 0 && !sp.NoScripts && r2.Intn(2) == 0 {
+				sp.SpendPrev = true
+			}
+		}
+	}
+	return cfgs
 }
 
 func clampRange(h, best, batch int, maxb int64) (int, int) {
@@ -310,6 +343,14 @@ func genHistory(r *rand.Rand, id int, cfg ChainCfg) History {
 			h.Ops = append(h.Ops, Op{Kind: "dropcache"})
 		case x < 12:
 			h.Ops = append(h.Ops, Op{Kind: "purge"})
+		case x < 18:
+			// GetBlock of a block whose filter was or will be asked for
+			b := 1 + r.Intn(len(cfg.Specs))
+			if len(used) > 0 && r.Intn(2) == 0 && used[len(used)-1] > 0 {
+				b = used[len(used)-1]
+			}
+			h.Ops = append(h.Ops, Op{Kind: "getblock", Height: b})
+			used = append(used, b)
 		default:
 			op := genCall(r, &cfg, used, i == nops-1)
 			used = append(used, op.Height)
@@ -337,7 +378,24 @@ func corpus(cfgs []ChainCfg) []History {
 	call := func(h, batch int, maxb int64, v string, rs ...Resp) Op {
 		return Op{Kind: "call", Height: h, Batch: batch, MaxBatch: maxb, Resps: rs, Verdict: v}
 	}
-	a, b, t := cfgs[0], cfgs[1], cfgs[2]
+	a, b, t, o := cfgs[0], cfgs[1], cfgs[2], cfgs[4]
+	// ow: a lookup of block h whose read transaction is followed by the given
+	// write commits; but(x, lo, hi, more...): blocks lo..hi without x, and more
+	ow := func(h int, groups ...[]int) Op { return Op{Kind: "call", Height: h, Verdict: "err", Writes: groups} }
+	but := func(x, lo, hi int, more ...int) []int {
+		var l []int
+		for i := lo; i <= hi; i++ {
+			if i != x {
+				l = append(l, i)
+			}
+		}
+		return append(l, more...)
+	}
+	// two blocks of chain a that spend the previous block's coinbase output
+	sp1, sp2 := 2, 3
+	if real, _ := spenders(&a); len(real) >= 2 {
+		sp1, sp2 = real[0], real[len(real)-1]
+	}
 	return []History{
 		{ID: 0, Chain: a, CacheCap: 1 << 20, Persist: true, Ops: []Op{
 			call(5, 0, 0, "ok", B("corrupt", 5), B("other_filter", 5), H(5), H(5)),
@@ -409,6 +467,44 @@ func corpus(cfgs []ChainCfg) []History {
 			{Kind: "dropcache"},
 			call(5, 0, 0, "err"),
 		}},
+		// retry of the same range after the filter headers inside it were
+		// rolled back and re-committed: filters matching the OLD headers must
+		// be ignored (persisted / not persisted)
+		{ID: 11, Chain: a, CacheCap: 1 << 20, Persist: true, Ops: []Op{
+			call(6, 2, 4, "ok", H(3), H(4), B("alt_variant", 6)),
+			{Kind: "rewrite", From: 5, Toggle: []int{5, 6}},
+			call(6, 2, 4, "ok", B("alt_variant", 5), B("alt_variant", 6), H(3), H(4), H(5), H(6)),
+			call(5, 0, 0, "err"), call(6, 0, 0, "err"),
+		}},
+		{ID: 12, Chain: a, CacheCap: 1 << 20, Persist: false, Ops: []Op{
+			call(10, 1, 3, "err", H(11)),
+			{Kind: "rewrite", From: 9, Toggle: []int{10, 12}},
+			call(10, 1, 3, "ok", B("alt_variant", 12), B("alt_variant", 10), H(10), H(11), H(12)),
+			call(10, 0, 0, "err"), call(12, 0, 0, "err"),
+		}},
+		// GetBlock is no producer of filters: GetBlock(B), then GetCFilter(B)
+		{ID: 13, Chain: a, CacheCap: 1 << 20, Persist: true, Ops: []Op{
+			{Kind: "getblock", Height: sp1},
+			call(sp1, 0, 0, "ok"),
+			{Kind: "getblock", Height: sp2},
+			call(sp2, 0, 0, "ok", H(sp2)),
+			{Kind: "getblock", Height: sp2},
+			call(sp2, 0, 0, "err"),
+		}},
+		// database-served lookups overlapped by write commits
+		{ID: 14, Chain: o, CacheCap: 1 << 20, Persist: true, Ops: []Op{
+			call(10, 1, 8, "ok", honestRange(10, 17)...),
+			{Kind: "dropcache"},
+			ow(12, but(12, 10, 17, 1, 2, 3), []int{20, 21}, but(12, 10, 17, 22, 23, 24, 25), []int{4, 5}, but(12, 1, 5, 30, 31)),
+			ow(15, but(15, 10, 17), []int{26}, but(15, 1, 5, 27, 28, 29), but(15, 10, 17, 16)),
+			ow(0, []int{37, 38}, but(0, 1, 5), but(0, 10, 17, 39, 40, 41)),
+			ow(17, but(17, 10, 17, 42, 43), []int{44, 12}, but(17, 20, 31)),
+			ow(11, but(11, 1, 5), but(11, 10, 17), []int{6, 7}, but(11, 20, 31, 8, 9)),
+			ow(21, but(21, 20, 31), []int{32}, but(21, 1, 17), but(21, 20, 31, 33, 34)),
+			ow(3, but(3, 1, 9), []int{35}, but(3, 10, 31), []int{36}, but(3, 1, 9)),
+			ow(30, but(30, 20, 36), but(30, 1, 19), []int{2}, but(30, 20, 44)),
+			call(12, 0, 0, "err"), call(20, 0, 0, "err"),
+		}},
 		{ID: 7, Chain: a, CacheCap: 1 << 20, Persist: true, Ops: []Op{
 			call(4, 1, 2, "ok", H(4), B("empty", 5), B("bad_n", 5), B("truncate", 5), B("noncfilter", 5), B("badreq", 5), B("badreq_type", 5), B("unknown_block", 5)),
 			call(5, 0, 0, "ok", H(5)),
@@ -462,6 +558,8 @@ type runner struct {
 	fhs     []chainhash.Hash
 	hf      map[[2]int64]int64
 	sizes   map[int64]int64
+	rdb     *racingDB             // the service's walletdb: runs armed write commits after a read transaction
+	wfdb    filterdb.FilterDatabase // the overlapping writers' handle on the same database
 	added   int // items handed to the batch writer (progress reports while persisting)
 	written int
 	fails   []string
@@ -640,6 +738,7 @@ func (ru *runner) flush() bool {
 // callCtl couples one GetCFilter call with the scripted work manager.
 type callCtl struct {
 	op       *Op
+	block    bool          // a GetBlock call: answered with the block itself
 	hold     bool          // keep the query open until finish()
 	gate     chan struct{} // if set: wait for it before touching anything
 	inFlight chan struct{} // closed when the query is (held) in flight / reached the gate
@@ -669,6 +768,17 @@ func (ru *runner) serve(ctl *callCtl, persist bool, reqs []*query.Request) chan 
 	if len(reqs) != 1 {
 		ru.fails = append(ru.fails, fmt.Sprintf("request: %d requests in one GetCFilter query", len(reqs)))
 		errChan <- errInjected
+		return errChan
+	}
+	if gd, isGD := reqs[0].Req.(*wire.MsgGetData); ctl.block || isGD {
+		// GetBlock: an honest peer sends the block
+		if !ctl.block || !isGD || len(gd.InvList) != 1 || gd.InvList[0].Hash != ru.ch.Hashes[op.Height] {
+			ru.fails = append(ru.fails, "request: unexpected getdata / GetBlock did not ask for the requested block")
+			errChan <- errInjected
+			return errChan
+		}
+		reqs[0].HandleResp(reqs[0].Req, ru.ch.Blocks[op.Height], q.PeerAddr(1))
+		errChan <- nil
 		return errChan
 	}
 	gcf, ok := reqs[0].Req.(*wire.MsgGetCFilters)
@@ -751,7 +861,19 @@ func (ru *runner) start(op *Op, oi int, hold, gated bool) *callCtl {
 		ctl.gate = make(chan struct{})
 	}
 	ru.ctls <- ctl
+	op.WDone, op.WTok = false, nil
+	if len(op.Writes) > 0 {
+		ru.armWrites(op)
+	}
 	go func() {
+		// a slice into a released page of the memory mapped database file
+		// faults instead of panicking: turn it into a panic and report it
+		debug.SetPanicOnFault(true)
+		defer func() {
+			if e := recover(); e != nil {
+				ctl.done <- callRes{nil, fmt.Errorf("%w: %v", errPanicked, e)}
+			}
+		}()
 		var opts []neutrino.QueryOption
 		switch op.Batch {
 		case 1:
@@ -818,7 +940,13 @@ func (ru *runner) finishObs(h *History, ctl *callCtl, oi int) bool {
 		}
 	}
 	op.Queried = ctl.queried
+	if len(op.Writes) > 0 {
+		op.WDone = ru.rdb.disarm()
+	}
 	switch {
+	case errors.Is(out.err, errPanicked):
+		h.Fail, h.FailAt = fmt.Sprintf("panic: %v (op %d)", out.err, oi), oi
+		return false
 	case out.err == nil && out.f != nil:
 		op.Res = "filter"
 		op.ResTok = ru.noteFilter(out.f, int64(op.Height))
@@ -835,7 +963,7 @@ func (ru *runner) finishObs(h *History, ctl *callCtl, oi int) bool {
 		ru.fails = append(ru.fails, "result: GetCFilter returned (nil, nil)")
 	}
 	ru.observeCache(op)
-	if h.Persist {
+	if h.Persist || len(op.Writes) > 0 {
 		if !ru.flush() {
 			h.Fail, h.FailAt = fmt.Sprintf("hang: batch writer did not persist %d queued filters", ru.added-ru.written), oi
 			return false
@@ -910,12 +1038,20 @@ func runHistory(h *History, work string) {
 	dir := filepath.Join(work, fmt.Sprintf("case-%d", h.ID))
 	q.CopyDir(tmpl, dir)
 	defer os.RemoveAll(dir)
-	env := q.Open(dir, q.EnvConfig{FilterCacheSize: h.CacheCap, Persist: h.Persist, Ticker: 15 * time.Millisecond})
+	rdb := &racingDB{}
+	env := q.Open(dir, q.EnvConfig{FilterCacheSize: h.CacheCap, Persist: h.Persist, Ticker: 15 * time.Millisecond,
+		WrapDB: func(db walletdb.DB) walletdb.DB { rdb.DB = db; return rdb }})
 	defer env.Close()
+	// the overlapping writers commit one plain read-write transaction per
+	// group (no bbolt batching delay): a handle that hides BatchDB
+	wfdb, err := filterdb.New(struct{ walletdb.DB }{env.DB}, q.Params)
+	if err != nil {
+		panic(err)
+	}
 
 	ru := &runner{ch: ch, env: env, hashID: map[chainhash.Hash]int64{}, nextHID: 1000,
 		ftok: q.NewInterner(10), htok: q.NewInterner(100), hf: map[[2]int64]int64{}, sizes: map[int64]int64{},
-		variant: make([]int, len(ch.Blocks)), ctls: make(chan *callCtl, 4)}
+		variant: make([]int, len(ch.Blocks)), ctls: make(chan *callCtl, 4), rdb: rdb, wfdb: wfdb}
 	for i, hh := range ch.Hashes {
 		ru.hashID[hh] = int64(i)
 	}
@@ -973,6 +1109,11 @@ func runHistory(h *History, work string) {
 			ru.rewrite(op)
 			ru.observeCache(op)
 			ru.observeDB(op)
+			continue
+		case "getblock":
+			if !ru.getBlock(h, op, oi) {
+				return
+			}
 			continue
 		}
 		if !op.Hold {
@@ -1094,6 +1235,10 @@ func caseTerm(h *History) (string, string) {
 			steps = append(steps, c.Pair(c.App("XR", c.Z(h.Best), c.Ints(op.NewFHs)), c.App("O_", "RNone", "false", "(0, 0)", "[]", pairs(op.Cache), pairs(op.DB))))
 			sig = append(sig, "W")
 			continue
+		case "getblock":
+			steps = append(steps, c.Pair(c.App("XG", c.Z(int64(op.Height))), c.App("O_", "RNone", "false", "(0, 0)", "[]", pairs(op.Cache), pairs(op.DB))))
+			sig = append(sig, "G")
+			continue
 		}
 		var rs, pg []string
 		s := fmt.Sprintf("b%d", op.Batch)
@@ -1102,6 +1247,13 @@ func caseTerm(h *History) (string, string) {
 		}
 		if op.Queued {
 			s = "Q" + s
+		}
+		if len(op.Writes) > 0 {
+			if op.WDone {
+				s = "O" + s
+			} else {
+				s = "o" + s
+			}
 		}
 		for _, r := range op.Resps {
 			rs = append(rs, c.App("R_", c.Z(int64(r.Req)), c.Bool(r.IsCF), c.Bool(r.TypeOK), c.Z(r.Blk), c.Bool(r.DecodeOK), c.Z(r.Filt)))
@@ -1116,6 +1268,9 @@ func caseTerm(h *History) (string, string) {
 			blk = 5000 + int64(i)
 		}
 		call := c.App("C_", c.Z(blk), c.Bool(op.Height >= 0), c.Bool(op.FType == 0), c.Z(int64(op.Batch)), c.Z(op.MaxBatch), c.List(rs), v)
+		if len(op.Writes) > 0 {
+			call = c.App("CW_", c.Z(blk), c.Bool(op.Height >= 0), c.Bool(op.FType == 0), c.Z(int64(op.Batch)), c.Z(op.MaxBatch), c.List(rs), v, pairs(op.WTok))
+		}
 		var res string
 		switch op.Res {
 		case "filter":
@@ -1151,8 +1306,18 @@ func main() {
 	rep := c.NewReport("C05", a)
 	var hs []History
 	if a.Replay != "" {
+		// a stored history, or a replay file written by ./check (the history
+		// is wrapped: {"property": ..., "history": {...}})
+		var w struct {
+			History *History `json:"history"`
+		}
 		var h History
-		c.ReadJSON(a.Replay, &h)
+		c.ReadJSON(a.Replay, &w)
+		if w.History != nil {
+			h = *w.History
+		} else {
+			c.ReadJSON(a.Replay, &h)
+		}
 		hs = []History{h}
 	} else {
 		cfgs := chainCfgs(a.Seed)
@@ -1164,6 +1329,20 @@ func main() {
 		for i := 0; i < n; i++ {
 			r := c.Rng(a.Seed, i)
 			hs = append(hs, genHistory(r, len(hs), cfgs[[]int{0, 0, 1, 1, 2, 3}[r.Intn(6)]]))
+		}
+		// the deliberate families (families.go)
+		nf := n / 10
+		for i := 0; i < nf; i++ {
+			r := c.Rng(a.Seed, 400000+i)
+			hs = append(hs, genRetry(r, len(hs), cfgs[[]int{0, 0, 1, 3, 4}[r.Intn(5)]]))
+		}
+		for i := 0; i < nf; i++ {
+			r := c.Rng(a.Seed, 500000+i)
+			hs = append(hs, genOverlap(r, len(hs), cfgs[[]int{4, 4, 4, 0}[r.Intn(4)]]))
+		}
+		for i := 0; i < nf; i++ {
+			r := c.Rng(a.Seed, 600000+i)
+			hs = append(hs, genGetBlock(r, len(hs), cfgs[[]int{0, 1, 3, 4}[r.Intn(4)]]))
 		}
 	}
 	work, err := os.MkdirTemp(a.Out, "work")
@@ -1238,6 +1417,12 @@ func main() {
 		if strings.Contains(sig, "W") {
 			rep.Histogram["histories_with_header_rewrite"]++
 		}
+		if strings.Contains(sig, "G") {
+			rep.Histogram["histories_with_getblock"]++
+		}
+		if strings.Contains(sig, "O") {
+			rep.Histogram["histories_with_overlapped_db_lookup"]++
+		}
 		if strings.Contains(sig, "N") && strings.Contains(sig, "i") {
 			nontrivial.Add(sig)
 		}
@@ -1245,6 +1430,17 @@ func main() {
 			rep.Histogram["op:"+op.Kind]++
 			if op.Kind != "call" {
 				continue
+			}
+			if len(op.Writes) > 0 {
+				switch {
+				case !op.WDone:
+					rep.Histogram["overlap:no_read_transaction"]++
+				case op.Queried:
+					rep.Histogram["overlap:db_miss_then_network"]++
+				default:
+					rep.Histogram["overlap:db_served"]++
+				}
+				rep.Histogram["overlap:write_commits"] += len(op.Writes)
 			}
 			rep.Histogram["result:"+op.Res]++
 			rep.Histogram[fmt.Sprintf("batch:%d", op.Batch)]++
@@ -1281,7 +1477,7 @@ func main() {
 	rep.Histogram["distinct_signatures"] = len(sigs)
 	rep.Evaluations = len(hs)
 	rep.DistinctNontrivial = len(nontrivial)
-	rep.Rule = "histories of 4-9 operations (GetCFilter calls with every batching mode and MaxBatchSize option, cache resets, database purges; a flush barrier after each call) on the real ChainService skeleton (real header stores with committed filter headers of real GCS filters, filterdb on bbolt, batch writer, LRU filter cache) with a scripted work manager feeding honest filters in any order plus 12 kinds of corrupted / foreign / malformed / unsolicited / duplicate responses; targets biased to block 0, 1, the tip, above the best filter header and unknown hashes; a history is non-trivial when it contains a filter returned from the network and an ignored response; distinct = distinct per-call signature (batch mode, progress value per response, outcome N network / L local / E error)."
+	rep.Rule = "histories of 4-9 operations (GetCFilter calls with every batching mode and MaxBatchSize option, cache resets, database purges; a flush barrier after each call) on the real ChainService skeleton (real header stores with committed filter headers of real GCS filters, filterdb on bbolt, batch writer, LRU filter cache) with a scripted work manager feeding honest filters in any order plus 12 kinds of corrupted / foreign / malformed / unsolicited / duplicate responses; targets biased to block 0, 1, the tip, above the best filter header and unknown hashes; a history is non-trivial when it contains a filter returned from the network and an ignored response; distinct = distinct per-call signature (batch mode, progress value per response, outcome N network / L local / E error). Deliberate families (10% of the general count each): retry (a query for a range; the filter headers inside the range rolled back and re-committed through the real store; the SAME query again, answered with filters matching the old headers before / after / among the honest ones; persisted and not), overlap (filters persisted through the batch writer, cache emptied or too small, then lookups whose filter-database read transaction is followed — pinned by a walletdb wrapper, on the caller's goroutine, no sleeps — by 2-6 write commits that rewrite the other stored keys and add new ones; database contents compared afterwards), getblock (GetBlock of a block that spends a real output, answered by the scripted work manager, followed by GetCFilter of the same block; filter cache and database observed after GetBlock)."
 	for i := 0; i < len(hs) && i < 3; i++ {
 		rep.Samples = append(rep.Samples, hs[i])
 	}
